@@ -16,7 +16,9 @@ import time
 
 ROOT = os.path.dirname(os.path.dirname(os.path.abspath(__file__)))
 SPEC = os.path.join(ROOT, "spec")
-WORK = os.path.join(ROOT, ".work")
+# one scratch directory per check process (several checks may run at the same time); removed at exit
+WORK = os.environ.get("VERIF_WORK") or os.path.join(ROOT, ".work", "r%d" % os.getpid())
+os.environ["VERIF_WORK"] = WORK
 EVID = os.path.join(ROOT, "evidence")
 REPLAYS = os.path.join(ROOT, "replays")
 REPO = os.environ.get("VERIF_REPO", "/repo")
@@ -530,5 +532,7 @@ def main_wrapper(fn):
         rc = fn()
     except MachineryError as e:
         print("MACHINERY-FAILURE: %s" % e)
-        sys.exit(2)
+        rc = 2
+    finally:
+        shutil.rmtree(WORK, ignore_errors=True)
     sys.exit(rc)
